@@ -910,6 +910,27 @@ def probes(rng, tier):
     return out
 
 
-LEVEL_TEXT = ''
-LEVEL_NOTE = ''
-TECHNIQUE = 'Coq proofs by list / tree induction at R over a hand-written model + in-Coq differential correspondence at Q'
+LEVEL_TEXT = ('Proof (Coq, carrier R, all lengths / shapes / tree depths): for constant- and array-weighted tensor spaces the '
+              'inner product equals the documented weighted sum, is symmetric, linear in the first argument, positive '
+              'definite and satisfies Cauchy-Schwarz (complex spaces: conjugate symmetry, C-linearity, positivity and '
+              'Cauchy-Schwarz on (re, im) data); the norm equals sqrt(inner) for p = 2 and the documented weighted p-norm '
+              'for every natural p and p = inf, is absolutely homogeneous and satisfies the triangle inequality for EVERY '
+              'natural p (Minkowski) and inf; dist = norm(x - y) and is symmetric.  Discretized spaces: for each of the '
+              'four nodes_on_bdry grid formulas and every n >= 2 the boundary-cell fractions are exactly 1/2 or 1; for any '
+              'number of axes, points per axis (1 included) and grid position, cell_volume * sum(boundary weights) = '
+              'domain volume, hence ||one||^2 = volume under the stated side condition (refuted without it: recorded '
+              'finding); _norm/_dist with boundary slices scaled by frac^(1/p) equal the documented weighted p-norm of '
+              'x resp. x - y.  Product spaces of arbitrary nesting: exponent-2 trees are inner-product spaces whose inner '
+              'product is the weighted dot product of the flattened data (weights multiplied along the path); for mixed '
+              'exponents the code\'s combination of component norms is the weighted p-norm of their vector, the norm never '
+              'raises, is homogeneous and sub-additive, dist = norm(x - y) and is symmetric.  The hand-written model is '
+              'tied to the source by an in-Coq correspondence (quick 2.3k / thorough 14k cases) over all weighting kinds x '
+              'exponents {1,2,inf,3,4} x dtypes x C/F data x sizes 0..60000 x boundary flags x nested trees.')
+LEVEL_NOTE = ('Validated, not proved: NumPy/BLAS kernels and float rounding (compared to rtol 1e-10, float32 1e-5); '
+              'apply_on_boundary modelled as an outer product of per-axis vectors; non-integer exponents (1.5, 2.5) and '
+              'complex product spaces only probed; custom inner/norm/dist are pass-through (delegation probed); the '
+              'Q-instance p-th root (exact on perfect powers, else 2^-64 floor approximations) stands for the real root. '
+              'Eight recorded findings are modelled through measured variant switches (quirks) or excluded inputs and '
+              'reproduced by probes.  Axioms: classical reals + functional extensionality as printed.')
+TECHNIQUE = ('Coq proofs by list / space-tree induction at R (abstract semi-inner-product section, discriminant argument, '
+             'convexity proof of Minkowski) over a hand-written model + in-Coq differential correspondence at Q')
